@@ -15,7 +15,8 @@ adapter that records every URL reaching the wire.
     `C18_cache_transparent_customKey` holds (the body is a function of scheme, host, decoded path and the sorted
     decoded query; a declared shared constraint gets the same body in every file under the base on the base's host,
     segment boundaries, and within one Earthdata collection): every body read through a caching session must equal
-    the body a plain `requests.Session` gets for the same GET.
+    the body a plain `requests.Session` gets for the same GET, and a GET that does reach the wire must put there exactly
+    the request the plain session sends.
 
 `replay_case(case) -> bool` re-runs one recorded history on the implementation (True = property holds).
 """
@@ -104,16 +105,17 @@ def real_body(cfg, wire_url):
 
 
 def run_history(kind, cfg, urls, body_of):
-    """-> per read (reached the wire?, from_cache, body, prepared url, key or None), wire log"""
+    """-> per read (the URLs it put on the wire, from_cache, body, prepared url, key or None), wire log"""
     log = []
     s = make_session(kind, cfg.shared, cfg.known, body_of, log)
     out = []
     for u in urls:
         n = len(log)
         prepared = s.prepare_request(ck._load()[0].Request("GET", u))
+        pu = prepared.url
         key = s.cache.create_key(prepared) if kind != "plain" else None
         r = s.get(u)
-        out.append((len(log) > n, bool(getattr(r, "from_cache", False)), r.content, prepared.url, key))
+        out.append((tuple(log[n:]), bool(getattr(r, "from_cache", False)), r.content, pu, key))
     return out, log
 
 
@@ -148,6 +150,13 @@ def check_history(ctx, cfg, urls, corr, how="generated"):
                   sample={"session": kind, "history": list(urls)[:4], "hits": hits} if cons else None)
         # (b) a server under the assumption, against the plain session
         got, _ = run_history(kind, cfg, urls, lambda w: real_body(cfg, w))
+        sent = [i for i in range(len(urls)) if got[i][0] and got[i][0] != plain[i][0]]
+        if sent:
+            ok = False
+            i = sent[0]
+            ctx.oracle_fail("a caching session sends another request than the plain session for the same GET", case,
+                            {"read": i, "url": urls[i], "wire": list(got[i][0])}, {"wire": list(plain[i][0])},
+                            size=100 * len(urls) + sum(len(u) for u in urls))
         bad = [i for i in range(len(urls)) if got[i][2] != plain[i][2]]
         if bad:
             ok = False
@@ -202,7 +211,7 @@ def gen_url(rng, cfg):
         host = rng.choice([ck.EARTHDATA, ck.EARTHDATA, host])
     else:
         path = bp + "/" + rng.choice(FILES)
-        host = rng.choice(["other.example.org", host + ":8080"])  # the base's path on another host
+        host = rng.choice(["other.example.org", host.split(":")[0] + ":8080"])  # the base's path on another host / port
     q = rng.choice(QSHARED * 3 + QOTHER + QPERM)
     if rng.random() < 0.08:
         sch = "https" if sch == "http" else "http"
@@ -251,7 +260,7 @@ def explore(ctx, tier):
         for cfg in (main, ck.Config(ck.SHARED, None), ck.Config([], ck.KNOWN)):
             check_history(ctx, cfg, h, corr, how="fixed")
     rng = ctx.rng("cachehist")
-    n = ctx.budget(110, 4000)
+    n = ctx.budget(110, 2500)
     others = [ck.Config(ck.SHARED, ck.KNOWN_ED), ck.Config(ck.SHARED, None)]
     for i in range(n):
         r = rng.random()
